@@ -748,8 +748,14 @@ hdf_get_vp_aid(NC *handle, NC_var *vp)
     else {
         if (!IS_RECVAR(vp)) {
             vp->aid = Hstartaccess(handle->hdf_file, vp->data_tag, vp->data_ref, DFACC_WRITE);
-            if (vp->set_length == TRUE) {
-                Hsetlength(vp->aid, vp->len);
+            if (vp->aid != FAIL && vp->set_length == TRUE) {
+                if (Hsetlength(vp->aid, vp->len) == FAIL) {
+                    /* the element could not be given its length: no access */
+                    Hendaccess(vp->aid);
+                    vp->aid   = FAIL;
+                    ret_value = FAIL;
+                    goto done;
+                }
                 vp->set_length = FALSE;
             }
         }
